@@ -231,5 +231,5 @@ ASSUMPTIONS = ["the --summary high-water marks are the measure the property name
 
 def main(tier):
     n = 160 if tier == "quick" else 3000
-    cap = 400 if tier == "quick" else 7200
+    cap = 400 if tier == "quick" else 1500
     return engine.run_check(PROP, "c17", tier, n, cap, "exploration", RULE, ASSUMPTIONS)
